@@ -488,6 +488,33 @@ def check_callers(ctx, rep):
                       f"{key} can return a stored log-Jacobian without calling transform.log_abs_det_jacobian, and the cache {sentinels} is not "
                       f"invalidated when the parameter changes: after an update followed by any other accessor that clears the stale flag, "
                       f"the log-Jacobian of the previous value is returned")
+        # what is returned is that log-determinant and nothing else (each change of variables reports its own term; chains are summed by the caller's Jacobian list)
+        import copy
+        env = {}
+
+        class _Sub(ast.NodeTransformer):
+            def visit_Name(self, n):
+                if isinstance(n.ctx, ast.Load) and n.id in env:
+                    return copy.deepcopy(env[n.id])
+                return n
+        for st in ast.walk(fn):
+            if isinstance(st, ast.Assign) and len(st.targets) == 1 and isinstance(st.targets[0], ast.Name):
+                env[st.targets[0].id] = _Sub().visit(copy.deepcopy(st.value))
+        rets = [r for r in ast.walk(fn) if isinstance(r, ast.Return) and r.value is not None]
+        exact = bool(rets)
+        extra = []
+        for r in rets:
+            v = _Sub().visit(copy.deepcopy(r.value))
+            while isinstance(v, ast.Call) and isinstance(v.func, ast.Attribute) and v.func.attr in ('sum', 'squeeze', 'unsqueeze', 'reshape', 'view', 'clone') and ast.unparse(v) != ast.unparse(c):
+                v = v.func.value
+            if self_attr(v) is not None:
+                continue        # a cached attribute (checked by the recomputed-for-the-current-value obligation)
+            if ast.unparse(v) != ast.unparse(c):
+                exact = False
+                extra.append(norm_text(r.value)[:80])
+        rep.check('C07.C', key + '::returns-its-own-log-determinant-only', exact, W, {'returned': extra},
+                  f"{key} returns `{extra[0] if extra else '?'}`: more than the log-determinant of its own transform.  Every transformed parameter is listed in the Jacobian sum "
+                  f"by itself, so a term added here (for example the wrapped parameter's own log-determinant) is counted twice")
         rep.check('C07.C', key, first_is_x and cached is not None and refresh_ok and dom and on_transform, W,
                   {'call': norm_text(c), 'cached_forward_value': cached, 'refreshed_by': refresh_names, 'refresh_dominates': dom},
                   f"{key} must (after refreshing a stale cache) return self.transform.log_abs_det_jacobian(self.{xattr}.tensor, <cached forward value of the same tensor>) "
@@ -566,3 +593,16 @@ def run(ctx, rep):
         c06.check_shift(ctx, RuleProxy(rep, 'C07.I', 'shift::'))
     except Unsupported as u:
         rep.undecided('C07.I', 'shift::check_shift', '', str(u))
+    # C07.P — forward / inverse maps do not write into their argument or into stored state (the inverse must return the input, and the wrapped parameter must keep its value)
+    from sa import purity
+    rep.rule('C07.P', "the forward and inverse maps of the transforms do not modify their argument or stored state in place (indexed stores included): the value the caller holds is unchanged")
+    TRANSFORM_MODULES = ('torchtree.evolution.tree_height_transform', 'torchtree.distributions.transforms', 'torchtree.evolution.rate_transform')
+    n = purity.check_alias_mutation(ctx, rep, 'C07.P', lambda m, cname, fn: m.name in TRANSFORM_MODULES and cname is not None and fn.name in ('_call', '_inverse', 'log_abs_det_jacobian', '__call__'),
+                                    index_stores=True)
+    if n < 4:
+        rep.incomplete('C07.P', '*', '', f"only {n} in-place writes examined in the transforms")
+    # the two classes that *report* log-Jacobians cache them (CallableModel.lp / need_update): their change handlers must mark the cached value dirty (decided by C11.H)
+    from sa.members import Kinds
+    kinds = Kinds(ctx.classes)
+    for q in ('torchtree.core.parameter.TransformedParameter', 'torchtree.evolution.tree_model.ReparameterizedTimeTreeModel'):
+        c11.check_handlers(ctx, RuleProxy(rep, 'C07.C', 'handlers::'), kinds, ctx.classes.get(q))
